@@ -127,6 +127,7 @@ class Engine(object):
         self.prefix = []
         self.trace = []
         self._decided = {}
+        self._dom = {}
         self.pending = []
         self._names = {}
         self._aborted = False
@@ -349,6 +350,7 @@ class Engine(object):
                 self.prefix = self.pending.pop()
                 self.trace = []
                 self._decided = {}
+                self._dom = {}
                 self._names = {}
                 self._aborted = False
                 self.sample_fn = None
